@@ -123,6 +123,10 @@ RowSat(a) ==
             THEN "applicable_iff_sat.alone_optional.cls" \o ToString(CHOOSE c \in 1..NC :
                      LET da == Tab.rows[a].dispatch_alone IN
                      da[c] # "skip" /\ ((Sat(a, c) /\ da[c] # "T") \/ (~Sat(a, c) /\ da[c] # "O")))
+       \* the union written A | B and handed over as it is (plain, and inside type[...]): the same answers
+       ELSE IF "clssub_raw" \in DOMAIN Tab.rows[a] /\
+               \E c \in 1..NC : Tab.rows[a].clssub_raw[c] # <<Sat(a, c), Sat(a, c)>>
+            THEN "subclasscheck_iff_sat.union_as_written.cls" \o ToString(CHOOSE c \in 1..NC : Tab.rows[a].clssub_raw[c] # <<Sat(a, c), Sat(a, c)>>)
        ELSE ""
 
 RECURSIVE RowClauses(_, _, _)
